@@ -74,7 +74,7 @@ func draw(t *rapid.T) Case {
 			NameCol:   int32(rapid.IntRange(1, 9).Draw(t, "ncol")),
 			BegCol:    int32(rapid.IntRange(1, 9).Draw(t, "bcol")),
 			EndCol:    int32(rapid.IntRange(0, 9).Draw(t, "ecol")),
-			Meta:      int32(rapid.SampledFrom([]int{'#', '@', 0, 'x'}).Draw(t, "meta")),
+			Meta:      int32(rapid.SampledFrom([]int{'#', '@', 0, 'x', 0xe9, 0x100, 0x2192, 0x1f9ec, 0x7fffffff, -1}).Draw(t, "meta")),
 			Skip:      int32(rapid.IntRange(0, 5).Draw(t, "skip")),
 		}
 	}
